@@ -49,10 +49,14 @@ class Profile(object):
         self.hsa_you = self.sched1_adjust and r.random() < 0.6
         self.hsa_spouse = self.sched1_adjust and r.random() < 0.5     # only asked on a joint return
         self.f8606 = r.random() < 0.25
+        self.div_heavy = r.random() < 0.12        # small wages, qualified dividends above the taxable income (0 % / 15 % / 20 % buckets)
         self.ctc = [r.random() < 0.6 for _ in range(4)]          # which dependents qualify for the child credit
         self.under6 = [c and r.random() < 0.4 for c in self.ctc]
         if self.itemize and self.n["1098"] == 0 and r.random() < 0.85:
             self.n["1098"] = 1
+        if self.div_heavy:
+            self.n["1099-div"] = max(1, self.n["1099-div"])
+            self.n["w-2"] = min(1, self.n["w-2"])
         for k, v in force.items():
             setattr(self, k, v)
         self.route_around()
@@ -198,7 +202,7 @@ class Answerer(object):
             return yes if p.sched1_adjust else no
         if base in ("additions_to_agi", "deductions_from_agi", "try_itemizing", "veteran", "spouse_veteran", "nc_residents", "no_consumer_use_tax"):
             return yes if r.random() < 0.45 else no
-        if base in ("you_presidential_election", "spouse_presidential_election", "checking_account"):
+        if base in ("you_presidential_election", "spouse_presidential_election", "checking_account", "full_records"):
             return r.choice([yes, no])
         m = re.match(r"dependent_(\d+)_(ctc|odc)$", base)
         if m:
@@ -231,7 +235,9 @@ class Answerer(object):
                 w = getattr(self, "_w2_" + form, None)
                 if w is None:
                     w = self.amount(allow_zero=False)
-                    if p.wage_scale == 230000:
+                    if p.div_heavy:
+                        w = round(r.uniform(3000.0, 15000.0), 2 if p.cents else 0)
+                    elif p.wage_scale == 230000:
                         # the window in which Form 8959 (Additional Medicare Tax) is needed but Form 6251 is not yet
                         w = round(r.uniform(201000.0, 275000.0), 2 if p.cents else 0) if form.endswith(":0") else round(r.uniform(1000.0, 20000.0), 0)
                     elif w < 66000.0 and r.random() < 0.8:
@@ -253,6 +259,12 @@ class Answerer(object):
                 if fbase == "1099-div" and base == "box_6":
                     return "%.2f" % self.small(500)
                 return "%.2f" % (self.small(400) if p.foreign_tax else 0.0)
+            if fbase == "1099-div" and p.div_heavy and base in ("box_1a", "box_1b"):
+                d = getattr(self, "_div_" + form, None)
+                if d is None:
+                    d = round(r.uniform(20000.0, 60000.0), 0)
+                    setattr(self, "_div_" + form, d)
+                return "%.2f" % (d if base == "box_1a" else d - r.choice([0.0, 0.0, 500.0]))
             if fbase == "1099-div" and base == "box_1b":
                 return "%.2f" % (self.small(3000) if p.qualified_div else 0.0)
             if fbase == "1099-div" and base == "box_1a":
@@ -266,6 +278,13 @@ class Answerer(object):
             return "%.2f" % self.small(3000)
         if fbase == "nc_d-400" and (base.startswith("nc_") or base.endswith("estimated_income_tax")):
             return "%.2f" % r.choice([0.0, 0.0, 0.0, 0.0, 10.0])
+        if base == "county_tax_pct":
+            return r.choice(["0.0675", "0.07", "0.0725", "0.075"])
+        if base == "out_of_state_purchases":
+            return "%.2f" % r.choice([0.0, 100.0, 1000.0, self.small(5000)])
+        if base == "other_state_sales_tax":
+            # nothing, less than NC's rate on typical purchases, or more than any NC rate could give
+            return "%.2f" % r.choice([0.0, 5.0, self.small(60), 80.0, 400.0])
         if base == "educator_expenses":
             return "%.2f" % r.choice([0.0, 0.0, 100.0, 250.0, 300.0])
         if base in ("estimated_tax_payments", "other_federal_withholding"):
